@@ -2,8 +2,9 @@
 // (from /usr/lib/go-1.23), used by the C21 harness as the second reference parser.
 // Only edit: the import of go/internal/typeparams (not importable outside GOROOT) is replaced by
 // the local copy of PackIndexExpr below.  Regenerate with:
-//   cp /usr/lib/go-1.23/src/go/parser/{parser,interface,resolver}.go . &&
-//   sed -i '/"go\/internal\/typeparams"/d; s/typeparams\.PackIndexExpr/packIndexExpr/g' parser.go
+//
+//	cp /usr/lib/go-1.23/src/go/parser/{parser,interface,resolver}.go . &&
+//	sed -i '/"go\/internal\/typeparams"/d; s/typeparams\.PackIndexExpr/packIndexExpr/g' parser.go
 package parser
 
 import (
